@@ -51,11 +51,16 @@ impl Peer {
             match r {
                 Ok(Some(p)) => {
                     let mut v = json!({"k":"out","msid":p.message_stream_id,"ts":w(p.timestamp.value),"drop":pk.can_be_dropped,
-                                       "ty":p.type_id,"arg0num":[]});
+                                       "ty":p.type_id,"arg0num":[],"txnnum":[]});
                     match p.to_rtmp_message() {
                         Ok(m) => {
                             if let RtmpMessage::SetChunkSize { size } = m {
                                 let _ = self.de.set_max_chunk_size(size as usize);
+                            }
+                            if let RtmpMessage::Amf0Command { transaction_id, .. } = m {
+                                if transaction_id >= 0.0 && transaction_id < 2147483648.0 && transaction_id.fract() == 0.0 {
+                                    v["txnnum"] = json!([transaction_id as u32]);
+                                }
                             }
                             if let RtmpMessage::Amf0Command { ref additional_arguments, .. } = m {
                                 if let Some(Amf0Value::Number(x)) = additional_arguments.get(0) {
@@ -74,14 +79,14 @@ impl Peer {
                 }
                 Ok(None) => break,
                 Err(e) => {
-                    out.push(json!({"k":"out","msid":0,"ts":w(0),"drop":pk.can_be_dropped,"ty":0,"arg0num":[],
+                    out.push(json!({"k":"out","msid":0,"ts":w(0),"drop":pk.can_be_dropped,"ty":0,"arg0num":[],"txnnum":[],
                                     "msg":{"k":"Undecodable","why":format!("{:?}", e)}}));
                     break;
                 }
             }
         }
         if out.is_empty() {
-            out.push(json!({"k":"out","msid":0,"ts":w(0),"drop":pk.can_be_dropped,"ty":0,"arg0num":[],
+            out.push(json!({"k":"out","msid":0,"ts":w(0),"drop":pk.can_be_dropped,"ty":0,"arg0num":[],"txnnum":[],
                             "msg":{"k":"Undecodable","why":"packet did not complete a message"}}));
         }
         out
@@ -167,4 +172,17 @@ pub fn media_data(rng: &mut Rng, len: usize) -> Vec<u8> {
         v[p] = v[p].wrapping_add(1);
     }
     v
+}
+
+/// Did a failing handle_input call discard an acknowledgement it had already serialized?
+/// (Then the session's serializer is ahead of what the peer saw - finding K1 - and the peer
+/// decoder of this harness cannot follow any more.)
+pub fn lost_ack(prev_probe: &Value, e: &Value) -> bool {
+    let win = prev_probe["window"].get(0).and_then(|x| x.as_u64());
+    let pend = prev_probe["pending"].as_u64().unwrap_or(0);
+    let n = e["n"].as_u64().unwrap_or(0);
+    match win {
+        Some(w) => pend + n >= w,
+        None => false,
+    }
 }
